@@ -274,6 +274,11 @@ func checkC12(c c12Case, _ *kit.Collector) kit.Result {
 				return res
 			}
 		case "wrong_serial", "ignore", "late":
+			if k.Behaviour == "late" && r.Err == "" && r.Flag && int(r.PSeq) == cmdSerial {
+				// the answer was meant to come 250 ms after the timeout; if the machine stalled the timer it may legitimately win
+				res.Err = fmt.Errorf("SOFT call %d: the late answer (timeout %d ms + 250 ms) was delivered instead of the timeout after %d ms", k.ID, k.TimeoutMs, dur)
+				return res
+			}
 			if r.Note != "overtime" {
 				res.Err = kit.Fail("call %d (%#04x, timeout %d ms, terminal behaviour %s): want a timeout error, got err=%q response=%x", k.ID, k.Cmd, k.TimeoutMs, k.Behaviour, r.Err, []byte(r.Data2))
 				return res
